@@ -7,6 +7,8 @@ import (
 	"fmt"
 	"strings"
 	"time"
+
+	"github.com/gkampitakis/go-snaps/match"
 )
 
 // C03 — entries are stably addressed and isolated (DESIGN §6 C03).
@@ -22,6 +24,8 @@ type c03Op struct {
 	Val  string `json:"val,omitempty"`
 	Upd  bool   `json:"upd,omitempty"`
 	File string `json:"file,omitempty"` // Filename option, "" = f
+	API  string `json:"api,omitempty"`  // "" = snap | json | yaml
+	Bad  string `json:"bad,omitempty"`  // "" | invalid (Val is not a document) | matcher (a matcher on a missing path)
 }
 
 type c03Case struct {
@@ -39,6 +43,12 @@ func (o c03Op) String() string {
 	}
 	if o.File != "" {
 		u += ",file=" + o.File
+	}
+	if o.API != "" {
+		u += ",api=" + o.API
+	}
+	if o.Bad != "" {
+		u += ",rejected:" + o.Bad
 	}
 	return fmt.Sprintf("Call(%s,%q%s)", o.Test, o.Val, u)
 }
@@ -74,13 +84,24 @@ func c03Apply(c *vfCtx, cs c03Case, checkFrom int) (key uint64, ok bool) {
 			continue
 		}
 		cl := vfCall{API: "snap", Val: op.Val, File: op.File}
+		if op.API != "" {
+			cl.API = op.API
+		}
 		if op.Upd {
 			cl.Upd = "true"
 		}
 		mk := t.mark()
-		cl.do(t, dir)
+		var want, slot, id string
+		if op.Bad != "" {
+			// a call that is rejected before it reaches the file: it still consumes its ordinal
+			c03Rejected(cl, op.Bad, t, dir)
+			m.fail(op.Test, cl)
+			want, slot, id = "failed", "rejected", "-"
+		} else {
+			cl.do(t, dir)
+			want, slot, id = m.call(op.Test, cl, vfFormat(cl))
+		}
 		got := t.outcome(mk)
-		want, slot, id := m.call(op.Test, cl, vfFormat(cl))
 		if i < checkFrom {
 			continue
 		}
@@ -243,6 +264,71 @@ func c03Shadow(emit func(c03Case)) {
 	}
 }
 
+// c03Rejected performs a JSON/YAML call that the library rejects before it reaches the file.
+func c03Rejected(cl vfCall, bad string, t *vfT, dir string) {
+	cfg := cl.config(dir)
+	switch {
+	case cl.API == "json" && bad == "matcher":
+		cfg.MatchJSON(t, cl.input(), match.Any("no.such.path"))
+	case cl.API == "yaml" && bad == "matcher":
+		cfg.MatchYAML(t, cl.input(), match.Any("$.no.such.path"))
+	case cl.API == "json":
+		cfg.MatchJSON(t, cl.input())
+	case cl.API == "yaml":
+		cfg.MatchYAML(t, cl.input())
+	default:
+		panic("bad rejected call")
+	}
+}
+
+// c03Failing: "a failing call still consumes its ordinal" for calls that fail before a snapshot is taken
+// (not a document, matcher error), at every position of a 4-call test, with and without update, followed by a replay.
+func c03Failing(emit func(c03Case)) {
+	type doc struct{ api, v1, v2, invalid string }
+	for _, d := range []doc{{"json", "%d", "1%d", "{"}, {"yaml", "a: %d", "a: 1%d", "a: [\n"}} {
+		val := func(f string, k int) string { return fmt.Sprintf(f, k) }
+		for _, bad := range []string{"invalid", "matcher"} {
+			for k := 1; k <= 4; k++ {
+				for _, upd := range []bool{false, true} {
+					var ops []c03Op
+					for i := 1; i <= 4; i++ {
+						ops = append(ops, c03Op{Op: "call", Test: "TestA", API: d.api, Val: val(d.v1, i)})
+					}
+					ops = append(ops, c03Op{Op: "call", Test: "TestAB", API: d.api, Val: val(d.v1, 9)}, c03Op{Op: "end", Test: "TestA"}, c03Op{Op: "end", Test: "TestAB"})
+					for exec := 0; exec < 2; exec++ {
+						f := d.v1
+						if exec == 1 {
+							f = d.v2
+						}
+						for i := 1; i <= 4; i++ {
+							o := c03Op{Op: "call", Test: "TestA", API: d.api, Val: val(f, i), Upd: upd && exec == 1}
+							if i == k {
+								o.Bad = bad
+								o.Val = val(d.v1, i)
+								if bad == "invalid" {
+									o.Val = d.invalid
+								}
+							}
+							ops = append(ops, o)
+						}
+						ops = append(ops, c03Op{Op: "end", Test: "TestA"})
+					}
+					// replay: slot k still holds its first value, the others the updated ones (if updating)
+					for i := 1; i <= 4; i++ {
+						f := d.v1
+						if upd && i != k {
+							f = d.v2
+						}
+						ops = append(ops, c03Op{Op: "call", Test: "TestA", API: d.api, Val: val(f, i)})
+					}
+					ops = append(ops, c03Op{Op: "call", Test: "TestAB", API: d.api, Val: val(d.v1, 9)})
+					emit(c03Case{Ops: ops})
+				}
+			}
+		}
+	}
+}
+
 // c03TwoFiles: one test alternating between two snapshot files, executed three times.
 func c03TwoFiles(emit func(c03Case)) {
 	for _, pattern := range [][]string{{"", "g"}, {"g", ""}, {"", "g", "g", ""}, {"", "", "g", "g", "g"}, {"g", "g", ""}} {
@@ -328,7 +414,7 @@ func init() {
 			"every transition executed on the real code and compared with the model (outcome, addressed slot, parse(disk)); plus linear families with 10..12 ordinals; " +
 			"non-trivial = distinct histories with two tests, an End, an update or a special value"
 		c03BFS(c)
-		lin := func(emit func(c03Case)) { c03Linear(c, emit); c03TwoFiles(emit); c03Shadow(emit) }
+		lin := func(emit func(c03Case)) { c03Linear(c, emit); c03TwoFiles(emit); c03Shadow(emit); c03Failing(emit) }
 		lin(func(cs c03Case) {
 			if !c.mine() {
 				return
